@@ -55,7 +55,42 @@ EQUIPMENT = {5: [('Absorption Chiller Capital Cost', (1, 10)), ('Absorption Chil
              7: [('Peaking Fuel Cost Rate', (0.01, 0.05))]}
 SCALED_B = [n for n, _ in COMPONENTS] + list(CAPEX_ADJ.values()) + ['Electricity Rate', 'Peaking Fuel Cost Rate', 'One-time Flat License Fees Etc',
             'Annual License Fees Etc', 'One-time Grants Etc', 'Other Incentives', 'Tax Relief Per Year', 'Absorption Chiller Capital Cost',
-            'Absorption Chiller O&M Cost', 'Heat Pump Capital Cost']     # (the per-metre drilling cost is scaled through the well factor)
+            'Absorption Chiller O&M Cost', 'Heat Pump Capital Cost', 'Total District Heating Network Cost', 'District Heating O&M Cost']
+# (the per-metre drilling cost is scaled through the well factor)
+
+PLANT_OWN = {'Absorption Chiller Capital Cost', 'Absorption Chiller O&M Cost', 'Heat Pump Capital Cost', 'Peaking Fuel Cost Rate',
+             'Total District Heating Network Cost', 'District Heating O&M Cost'}
+_DECLARED = None
+
+
+def declared_positive_defaults() -> dict:
+    """name -> declared default, for the scaled cost inputs whose declared default is a positive figure (read from the live objects)."""
+    global _DECLARED
+    if _DECLARED is None:
+        _DECLARED = {}
+        try:
+            from .c07 import build, params_of
+            m = build('End-Use Option, 2\nPower Plant Type, 7\nPrint Output to Console, 0\n', read=False)
+            for mod, p_ in params_of(m):
+                nm = p_.Name.strip() if hasattr(p_, 'Name') else None
+                d = getattr(p_, 'DefaultValue', None)
+                if nm in SCALED_B and isinstance(d, (int, float)) and not isinstance(d, bool) and d > 0:
+                    _DECLARED[nm] = float(d)
+        except BaseException:  # noqa: BLE001
+            pass
+    return _DECLARED
+
+
+def land_on_default(rng, qc: dict, kc: list) -> str | None:
+    """Choose one scaled input so that one rung of the ladder writes exactly its declared default (a figure like any other)."""
+    ks = [k for k in kc if k in (0.5, 2.0, 0.25)]
+    names = [n for n in declared_positive_defaults() if n in qc and float(qc[n]) > 0]
+    if not ks or not names:
+        return None
+    own = [n for n in names if n in PLANT_OWN]       # inputs only one plant type has are met rarely: they go first
+    n, k = rng.choice(sorted(own or names)), rng.choice(ks)
+    qc[n] = repr(declared_positive_defaults()[n] / k)
+    return f'{n} x {k}'
 
 
 def component_costs_as_inputs(rng, p: dict, through_factors: bool) -> dict:
@@ -72,8 +107,12 @@ def component_costs_as_inputs(rng, p: dict, through_factors: bool) -> dict:
         q[name] = gen.fmt(rng.uniform(lo, hi))
     q['Electricity Rate'] = gen.fmt(rng.uniform(0.03, 0.12))
     if q.get('Power Plant Type') == 7:
-        q['Total District Heating Network Cost'] = 0
-        q['District Heating O&M Cost'] = 0
+        if rng.random() < 0.5:
+            q['Total District Heating Network Cost'] = 0
+            q['District Heating O&M Cost'] = 0
+        else:       # the network as a cost figure of its own
+            q['Total District Heating Network Cost'] = gen.fmt(rng.uniform(2, 30))
+            q['District Heating O&M Cost'] = gen.fmt(rng.uniform(0.1, 3))
     if through_factors:
         q['Well Drilling Cost Correlation'] = rng.choice([1, 2, 3, 4, 5, 5, 6, 10, 14, 17])
         if q['Well Drilling Cost Correlation'] == 5 or rng.random() < 0.3:
@@ -144,8 +183,10 @@ def run(tier: str) -> int:
                                                                                ('Surface Plant Capital Cost Adjustment Factor', 10),
                                                                                ('Well Drilling and Completion Capital Cost Adjustment Factor', 10),
                                                                                ('Well Drilling and Completion Capital Cost', 200)) if n_ in qc)]
+            landed = land_on_default(rng, qc, kc) if ((k + (1 if through else 0)) % 3 == 0 or any(n_ in qc for n_ in PLANT_OWN)) else None
             L.add('C11_homog', 'scaled', LC, [(x, gen.to_text(scale_named(qc, SCALED_B, x))) for x in kc],
-                  {'relation': 'component costs x k' + (' (capital components through adjustment factors)' if through else ''), 'base': tag})
+                  {'relation': 'component costs x k' + (' (capital components through adjustment factors)' if through else '')
+                   + (f' (declared default reached: {landed})' if landed else ''), 'base': tag})
         # --- prices: raise start and end price of every product together
         d = rng.choice([0.01, 0.03, 0.08])
         up = dict(p)
